@@ -157,6 +157,10 @@ def norm_py(S, t, v):
 
 def _bounds_ok(t, x):
     lo, hi = t["lo"], t["hi"]
+    if lo["b"] == "ge10" and not x >= lo["v"] / 10:
+        return False
+    if hi["b"] == "le10" and not x <= hi["v"] / 10:
+        return False
     if lo["b"] == "ge" and not x >= lo["v"]:
         return False
     if lo["b"] == "gt" and not x > lo["v"]:
@@ -970,6 +974,7 @@ class Batch:
         self.unused_imports_removed = []   # (pkg, import)
         self.tlc_cases = None
         self.deep = False
+        self.base_len = 0
         self.extra = []
         self.two_ids = []
 
@@ -986,6 +991,8 @@ def generate(ctx, batch, go_flags=None, extra_languages=(), formats=FORMATS):
     for sid in batch.ids:
         schema = batch.cat[sid]["schema"]
         for fmt in formats:
+            if fmt == "kind" and batch.deep and sid > batch.base_len and sid % 3 != ctx.seed % 3:
+                continue     # thorough: the kind rendering covers the whole base catalogue and a seeded third of the deep sections
             pkg = pkg_name(sid, fmt)
             u = {"id": sid, "fmt": fmt, "pkg": pkg, "status": "pending",
                  "type": pkg + "." + (KIND_ROOT if fmt == "kind" else schema["root"])}
@@ -1328,7 +1335,7 @@ NSIM = 240          # seeded draws from SemanticsSim per thorough run
 MAX_TWO = 900       # schemas whose two-place documents are enumerated
 
 
-def run_batch(ctx, nquick=62, go_flags=None, extra_languages=(), formats=FORMATS, select=None, must=(), deep=False, extra=None):
+def run_batch(ctx, nquick=76, go_flags=None, extra_languages=(), formats=FORMATS, select=None, must=(), deep=False, extra=None):
     """Catalogue -> selection -> cases -> generation -> build -> driver binary. Returns a Batch.
 
     select(cat) may return the list of ids to use (later properties pick schemas by tag, e.g. defaults).
@@ -1341,6 +1348,7 @@ def run_batch(ctx, nquick=62, go_flags=None, extra_languages=(), formats=FORMATS
     if deep and extra is None:
         extra = sim_draw(ctx, NSIM)
     b.extra = extra or []
+    b.base_len = len(load_catalogue(ctx)) if deep else 0
     b.cat = load_catalogue(ctx, deep=deep, extra=extra)
     if select is not None:
         b.ids = sorted(select(b.cat))
@@ -1583,10 +1591,14 @@ def judge_docs(batch, obs, clauses):
             pos, kind, bk = walk(schema, c["p"], c["py"])
             exp_paths = sorted(c["validateErrs"])
 
-            def add(clause, sig, what):
+            fam_key = entry["leaf"] + "@fixed" if entry["pos"] == "fixed" else entry["pos"]
+
+            def add(clause, sig, what, top=None):
                 o["violated"].add(clause)
                 if clause in clauses:
+                    # key: schema family and the top-level field concerned - a known finding that lists keys only covers those
                     fails.append({"pkg": pkg, "n": c["n"], "clause": clause, "sig": sig, "what": what,
+                                  "key": "%s|%s" % (fam_key, top if top is not None else (c["p"][0] if c["p"] else "")),
                                   "replay": {"schema_id": u["id"], "leaf": entry["leaf"], "pos": entry["pos"], "format": u["fmt"],
                                              "schema": schema, "schema_text": u["text"], "doc": c["py"], "label": c["f"], "path": c["p"],
                                              "expected": {"accepts": c["accepts"], "strictRejects": c["strictRejects"],
@@ -1614,7 +1626,9 @@ def judge_docs(batch, obs, clauses):
                         clause = "rejected:" + mc
                 add("Strict", "C08/go/Strict/%s/%s" % (clause, spos),
                     "strict decoder %s %s (label %s at %s): %s" % ("accepts" if c["strictRejects"] else "rejects", dumps(c["py"]), c["f"],
-                                                                    ".".join(c["p"]) or "<root>", o["rec"].get("strict_err")))
+                                                                    ".".join(c["p"]) or "<root>", o["rec"].get("strict_err")),
+                    top=((norm_path(sorted(o["rec"].get("strict_paths") or [{"path": ""}], key=lambda e: (e["path"], e.get("msg", "")))[0]["path"], schema) or [None])[0]
+                         if (not c["strictRejects"] and o["rec"].get("strict_paths")) else None))
             for key, name in (("validate", "Validate"), ("validateStrict", "ValidateStrict")):
                 real = o["verrs"] if key == "validate" else o["verrs_strict"]
                 if j[key] and real != exp_paths:
@@ -1624,7 +1638,10 @@ def judge_docs(batch, obs, clauses):
                     vpos, vkind, vbk = walk(schema, wp, c["py"])
                     what = "wrong-path" if (missing and extra) else "missed" if missing else "spurious"
                     vclause = "%s:%s.%s" % (what, vkind, "+".join(vbk) or "nobound")
-                    if what == "missed" and not real and "named-scalar" in vpos:
+                    if what == "missed" and any(b.endswith("10") for b in vbk):
+                        # a fractional bound on an integer lost by a parser: one class per input format, whatever the position
+                        vclause, vpos = "missed:fractional-bound-on-integer:" + u["fmt"], "any"
+                    elif what == "missed" and not real and "named-scalar" in vpos:
                         vclause = "missed:bounds-of-named-scalar"
                     elif what == "missed" and not real and "named-" in vpos:
                         # nothing at all is reported for items of a named collection: one class whatever the bound
@@ -1637,8 +1654,10 @@ def judge_docs(batch, obs, clauses):
                     add("Decode", "C01/go/decode/%s@%s/%s" % (reject_class(o, "std", entry, schema) + (u["fmt"],)),
                         "json.Unmarshal rejects the accepted document %s: %s" % (dumps(c["py"]), o["rec"].get("std_err")))
                 if o["has_strict"] and o["strict_rejects"]:
+                    sps = sorted(o["rec"].get("strict_paths") or [], key=lambda e: (e["path"], e["msg"]))
+                    stop = (norm_path(sps[0]["path"], schema) or [None])[0] if sps else None
                     add("StrictDecode", "C01/go/strict-decode/%s@%s/%s" % (reject_class(o, "strict", entry, schema) + (u["fmt"],)),
-                        "UnmarshalJSONStrict rejects the accepted document %s: %s" % (dumps(c["py"]), o["rec"].get("strict_err")))
+                        "UnmarshalJSONStrict rejects the accepted document %s: %s" % (dumps(c["py"]), o["rec"].get("strict_err")), top=stop)
                 if o["enc"] is not NOENC:
                     want = jv_to_py(c["norm"])
                     if not json_equal(norm_py(S, root, c["py"]), want):
@@ -1663,10 +1682,11 @@ def judge_docs(batch, obs, clauses):
                         else:
                             rcls = "%s:%s@%s" % (what, dkind, dpos)
                         add("RoundTrip", "C01/go/roundtrip/%s/%s" % (rcls, u["fmt"]),
-                            "%s decodes and re-encodes to %s" % (dumps(c["py"]), dumps(o["enc"])))
+                            "%s decodes and re-encodes to %s" % (dumps(c["py"]), dumps(o["enc"])), top=path[0] if path else None)
                     if o["reaccepted"] is False:
                         add("ReAccept", "C01/go/reaccept/%s/%s" % (rcls or cls, u["fmt"]),
-                            "the re-encoding %s of the accepted document %s is rejected by the source schema" % (dumps(o["enc"]), dumps(c["py"])))
+                            "the re-encoding %s of the accepted document %s is rejected by the source schema" % (dumps(o["enc"]), dumps(c["py"])),
+                            top=(d[0][0] if d and d[0] else None))
                 elif o["std_ok"]:
                     add("RoundTrip", "C01/go/roundtrip/encode-error:%s@%s/%s" % (kind, pos, u["fmt"]),
                         "json.Marshal fails on the decoded value of %s: %s" % (dumps(c["py"]), o["rec"].get("enc_err")))
@@ -1818,6 +1838,16 @@ POSITION_CLASSES = ("top", "optional", "array", "map", "ref", "union-branch")
 MAX_DISAGREE = 0.03
 
 
+def variant_assumptions(batch):
+    """The harness edits that make the dataquery-variant (format `kind`) packages compile, for the evidence."""
+    if not batch.stats.get("variants_import_added") and not batch.stats.get("variants_package_supplied"):
+        return []
+    return ["format `kind` (composable DataQuery kinds): cog emits `Equals(otherCandidate variants.Dataquery)` but neither imports nor emits "
+            "the `cog/variants` package at this commit; the harness supplied a minimal go/cog/variants/variants.go "
+            "(interface Dataquery { ImplementsDataqueryVariant(); Equals(other Dataquery) bool }) and added the import line to %d generated "
+            "packages (no other edit); the missing package/import is C02's subject" % batch.stats.get("variants_import_added", 0)]
+
+
 def unlisted_failures(ctx):
     """Failures of this run whose signature is not a listed known finding."""
     known = {k["signature"] for k in core.load_known() if k["property"] == ctx.pid and k.get("status", "known") == "known"}
@@ -1877,7 +1907,7 @@ def docs_check(ctx, pid, clauses, assumptions, must=(), go_flags=None):
         if not (tv & set(clauses)):
             agree += 1
     for f in fails:
-        ctx.fail(f["sig"], f["what"], f["replay"])
+        ctx.fail(f["sig"], f["what"], f["replay"], key=f.get("key"))
     # ---- coverage / vacuity
     n_docs = sum(len(v) for v in obs.values())
     dropped = collections.Counter(o["dropped"] for v in obs.values() for o in v if o["dropped"])
@@ -1960,7 +1990,7 @@ def docs_check(ctx, pid, clauses, assumptions, must=(), go_flags=None):
         vacuity_gate(ctx, vac)
         judged = sum(per_label.values())
         if n_docs and disagree > MAX_DISAGREE * n_docs:
-            raise core.Inconclusive("Accepts and the reference validators disagree on %d of %d documents" % (disagree, n_docs))
+            vacuity_gate(ctx, ["%d of %d documents" % (disagree, n_docs)], "Accepts and the reference validators disagree on too many documents")
     binding = None
     good = [(pkg, o) for pkg, o in order if not o["violated"] and o["judge"]["strict"]]
     if good and not replay:
@@ -2000,6 +2030,7 @@ def docs_check(ctx, pid, clauses, assumptions, must=(), go_flags=None):
         "checker_cmd": "tlc SemanticsMC (index, cases); worker sem-gen; go build; driver; python3-vt jsonschema + worker sem-validate; tlc SemanticsTrace",
     }
     a = list(assumptions)
+    a += variant_assumptions(batch)
     if batch.unused_imports_removed:
         a.append("packages whose only compiler diagnostics were `imported and not used` were recompiled after deleting exactly those import lines "
                  "(no other edit); the defect itself belongs to C02")
